@@ -1,7 +1,8 @@
 #!/bin/sh
 # Run the thorough tier of the given properties one after another (used with `vp run` as a background sweep).
+# VERIF_SEED is honoured.
 for id in "$@"; do
-  echo "=== $id $(date +%T)"
+  echo "=== $id $(date +%T) seed=${VERIF_SEED:-0}"
   /usr/bin/time -f "$id wall %es maxrss %MkB" bin/check $id thorough 2>&1 | grep -E "^C[0-9]+ \[|VIOLATION|INCONCL|KNOWN-FINDING|wall|^FAIL" | cut -c1-300
   echo "exit=$?"
 done
